@@ -196,3 +196,25 @@ Theorem C20_escape_exactly_once : forall o v,
             flat_map attr_pairs_of d = attr_pairs_of (tree_view o v).
 Proof. exact tree_view_escape_exactly_once. Qed.
 Print Assumptions C20_escape_exactly_once.
+
+(* Documents that keep growing (Content.write, +): several renderings written one after the other into the same Html object.
+   The single-value document is the one-element case; the grown document is well formed, its body is the concatenation of the
+   renderings in writing order, and its texts are exactly those of the renderings (nothing is lost, nothing reaches the head). *)
+Theorem C20_document_is_multi : forall o v, document o v = multi_document [(o, v)].
+Proof. exact document_is_multi. Qed.
+Print Assumptions C20_document_is_multi.
+
+Theorem C20_multi_document_well_formed : forall l, parse_html (render (multi_document l)) = Some (normalize [multi_document l]).
+Proof. exact multi_document_well_formed. Qed.
+Print Assumptions C20_multi_document_well_formed.
+
+Theorem C20_multi_document_body : forall l,
+  exists pre post, render (multi_document l) = pre ++ render_list (map (fun ov => tree_view (fst ov) (snd ov)) l) ++ post.
+Proof. exact multi_document_body. Qed.
+Print Assumptions C20_multi_document_body.
+
+Theorem C20_multi_document_texts : forall l,
+  texts_of (multi_document l)
+  = [[c_nl]; [c_nl]; [c_nl]; [c_nl]; [c_nl]] ++ flat_map (fun ov => texts_of (tree_view (fst ov) (snd ov))) l ++ [[c_nl]; [c_nl]].
+Proof. exact multi_document_texts. Qed.
+Print Assumptions C20_multi_document_texts.
